@@ -81,7 +81,7 @@ class NaiveElimination(PALAlgorithm):
             self.L = np.ceil(
                 4
                 * ((c * np.sqrt(noise_var) * ordering_complexity / self.epsilon) ** 2)
-                * np.log(4 * self.m / (2 * self.delta / (self.K * (self.K - 1))))
+                * np.log(4 * self.m / (2 * self.delta / max(self.K * (self.K - 1), 1)))
             ).astype(int)
         else:
             self.L = L
